@@ -37,7 +37,9 @@ RULE = ("DETERMINISTIC campaign (constant seed %d; VERIF_SEED is ignored because
         "and its map {0..n-1: voters, c+n-1: alternative c}, converted exactly with fractions.Fraction, must pass "
         "c19.check. (2)/(3) small profiles (all sets of orders over 3 alternatives, all sets of <= 2 orders and "
         "sampled sets of 3..6 orders over 4 alternatives, swap-walk and random profiles over 4..6 alternatives, "
-        "n <= 6), each in several storage orders: the verdict must equal the exact reference c19.decide (in "
+        "n <= 6; relabelled 3-voter 6-alternative cores that are single-peaked and single-crossing but not "
+        "1-Euclidean in all 6 storage orders; 3..4 votes sampled from the single-peaked votes of a random axis, "
+        "m = 5, 6), each in several storage orders: the verdict must equal the exact reference c19.decide (in "
         "particular False when c19.refuted: not single-peaked or not single-crossing) and the witness of a True "
         "answer must pass c19.check; c19.orders cases run 3..6 storage orders of one profile and demand the "
         "verdict of c19.decide for each. "
